@@ -44,6 +44,8 @@ def run_seq(args):
                 ncp.script["getValue"] = ["noreply"]
             elif o == "ezsperr":
                 ezsp.stop_ezsp()
+            elif o == "okbad":      # the free-buffer read is answered, with an error status
+                ncp.script["getValue"] = [("values", [ncp.t.EzspStatus.ERROR_INVALID_ID, b""])]
         if loop_mode:
             app._watchdog_loop  # noqa
             outcomes = ["ok"] * prefix + list(seq)
@@ -108,21 +110,20 @@ def sig(meta, v, tr):
 
 def run(ctx: Ctx):
     c = consts()
-    ctx.model_check("Watchdog", "MC_Watchdog", constants=c, invariants=INVS, constraints=("Bound",),
+    ctx.model_check("Watchdog", "MC_Watchdog", constants=c, invariants=INVS, constraints=("Bound7" if ctx.quick else "Bound",),
                     required_actions=("Feed", "Restart"), workers=8)
     L = 7 if ctx.quick else 9
     jobs, metas = [], []
-    for ver, outs in (("v4", ("ok", "timeout", "ezsperr")), ("later", ("ok", "timeout", "ezsperr"))):
+    for ver, outs in (("v4", ("ok", "timeout", "ezsperr")), ("later", ("ok", "timeout", "ezsperr")), ("later", ("okbad", "timeout", "ezsperr", "timeout2"))):
         for n in range(1, L + 1):
             for seq in itertools.product(outs, repeat=n):
-                if n < L and not ctx.quick:
-                    continue      # thorough: only maximal sequences (prefixes are contained)
-                if ctx.quick and n < L:
-                    continue
+                top = L if len(outs) == 3 else L - 1          # the four-outcome alphabet (successful feed with a failing free-buffer status) one shorter
+                if n != top:
+                    continue      # only maximal sequences (prefixes are contained)
                 jobs.append((ver, 0, list(seq), False))
     per = int(c["Period"])
     for prefix in range(per - 3, per + 2):
-        for seq in itertools.product(("ok", "timeout", "ezsperr", "timeout2"), repeat=3 if ctx.quick else 4):
+        for seq in itertools.product(("ok", "okbad", "timeout", "ezsperr", "timeout2"), repeat=3 if ctx.quick else 4):
             jobs.append(("later", prefix, list(seq), False))
     for seq in itertools.product(("ok", "timeout", "timeout2"), repeat=5 if ctx.quick else 6):
         jobs.append(("later", 0, list(seq) + ["timeout", "timeout", "ezsperr", "timeout", "timeout"], False))
@@ -135,7 +136,7 @@ def run(ctx: Ctx):
     ctx.evaluations = len(traces)
     ctx.distinct_nontrivial = len({str(j) for j in jobs})
     ctx.rule = (f"every success/timeout/EZSP-error outcome sequence of length {L} for protocol version 4 and for a later version "
-                f"(shorter sequences are prefixes); all sequences of length 3-4 incl. a failing free-buffer read after {per - 3}..{per + 1} "
+                f"(shorter sequences are prefixes), and of length L-1 over (successful feed whose free-buffer read returns an error status, timeout, EZSP error, free-buffer timeout); all sequences of length 3-4 incl. a failing free-buffer read after {per - 3}..{per + 1} "
                 "successful feeds (counter-clear boundary); sequences through the zigpy watchdog loop; distinct = distinct (version, prefix, sequence, mode)")
     ctx.exhaustive = True
     ctx.add_sample({"meta": metas[5], "trace": traces[5]})
